@@ -136,6 +136,16 @@ namespace trompeloeil
       call_params_type_t<Sig>& params)
     override
     {
+      return co_body(params);
+    }
+  private:
+    // The tuple of references to the arguments is a local variable of
+    // mock_func. The coroutine may be resumed after mock_func has returned,
+    // so it needs its own copy of the tuple in the coroutine frame.
+    return_of_t<Sig>
+    co_body(
+      call_params_type_t<Sig> params)
+    {
       using coro_type = return_of_t<Sig>;
       using promise_type = typename std::coroutine_traits<coro_type>::promise_type;
       using value_type = coro_value_type_t<coro_type>;
@@ -148,7 +158,6 @@ namespace trompeloeil
       }
       co_return func(params);
     }
-  private:
     T func;
     std::shared_ptr<yield_expr_list<Sig>> yields;
   };
